@@ -108,6 +108,9 @@ def handle (op : String) (j : Json) : Option (Except String Json) :=
   | "c04.jellium_direct_ok" => some do
       let (l, sl, k, p, c) ← jelliumArgs j
       .ok (Json.bool (C04J.jwJelliumDirectOk tol l sl (C04J.tableFn l k) (C04J.tableFn l p) c))
+  | "c04.jellium_hyp" => some do
+      let (l, _, k, p, _) ← jelliumArgs j
+      .ok (Json.bool (C04J.jelliumHypOk l (C04J.tableFn l k) (C04J.tableFn l p)))
   | "c04.jellium_points" => some do
       let l ← J.natList (← J.field j "lengths")
       .ok (J.ofList J.ofNatList (C04J.allPoints l))
